@@ -247,31 +247,23 @@ def run_c15_bmc(ck, tier, K=2):
     # the known accounting defects only ever make the counter too high: after no history may it fall below the stored total
     under = [z3.ULT(tr.S[t + 1].usage, total_size(tr.S[t + 1].present, tr.S[t + 1].val, K)) for t in range(k)]
     # (one query per step; on the wide menu the fourth step is left undecided by both solvers: depth 4 is covered on a narrower menu)
-    if k <= 3:
-        for t in range(k):
-            ck.obligation(f'bmc-k{k}: the accounted usage never falls below the stored total (after step {t + 1})', cs, z3.Not(under[t]), {}, on_w, small)
-    else:
-        tr3, cs3 = sysm.unroll(3, tag='~u3')
+    # one query per step.  On the wide thorough menu these queries are left undecided by both solvers, so the under-count side is
+    # checked on the quick menu at depth 3 and on a narrower one at depth 4 (stated in the bounds)
+    confs = [(k, cmds, sysm, tr, cs)] if k <= 3 else [(3, ['set', 'get', 'delete', 'flush', 'append'], None, None, None),
+                                                     (4, ['set', 'get', 'delete', 'flush'], None, None, None)]
+    for kk, cm, sy, trx, csx in confs:
+        if sy is None:
+            sy = bmc_system(ck, K, cm)
+            trx, csx = sy.unroll(kk, tag=f'~u{kk}')
 
-        def on_w3(m, where):
-            rep, desc, sc, out = sysm.replay(m, tr3)
+        def on_wu(m, where, sy=sy, trx=trx):
+            rep, desc, sc, out = sy.replay(m, trx)
             return rep, f'limit {mval(m, L)}: ' + desc, sc
-        small3 = [z3.ULE(L, 1024), z3.ULE(tr3.S[0].now, 100)] + [z3.ULE(vlen(tr3.I[t].val), 16) for t in range(3)]
-        for t in range(3):
-            ck.obligation(f'bmc-k3: the accounted usage never falls below the stored total (after step {t + 1})', cs3,
-                          z3.Not(z3.ULT(tr3.S[t + 1].usage, total_size(tr3.S[t + 1].present, tr3.S[t + 1].val, K))), {}, on_w3, small3)
-    if k > 3:
-        cm2 = ['set', 'get', 'delete', 'flush']
-        sys2 = bmc_system(ck, K, cm2)
-        tr2, cs2 = sys2.unroll(k, tag='~u')
-
-        def on_w2(m, where):
-            rep, desc, sc, out = sys2.replay(m, tr2)
-            return rep, f'limit {mval(m, L)}: ' + desc, sc
-        small2 = [z3.ULE(L, 1024), z3.ULE(tr2.S[0].now, 100)] + [z3.ULE(vlen(tr2.I[t].val), 16) for t in range(k)]
-        for t in range(k):
-            ck.obligation(f'bmc-k{k} {cm2}: the accounted usage never falls below the stored total (after step {t + 1})', cs2,
-                          z3.Not(z3.ULT(tr2.S[t + 1].usage, total_size(tr2.S[t + 1].present, tr2.S[t + 1].val, K))), {}, on_w2, small2)
+        smallu = [z3.ULE(L, 1024), z3.ULE(trx.S[0].now, 100)] + [z3.ULE(vlen(trx.I[t].val), 16) for t in range(kk)]
+        for t in range(kk):
+            ck.obligation(f'bmc-k{kk}: the accounted usage never falls below the stored total (after step {t + 1})', csx,
+                          z3.Not(z3.ULT(trx.S[t + 1].usage, total_size(trx.S[t + 1].present, trx.S[t + 1].val, K))), {}, on_wu, smallu)
+        ck.bounds[f'bmc-undercount-k{kk}'] = f'histories of {kk} commands from {cm} over {K} keys'
     return sysm, tr, cs
 
 
